@@ -162,3 +162,6 @@ def run(ctx):
     for e in events:
         if e["ev"] == "seg" and len(e["thr"]) == 2 and len(e["rows"]) < 12:
             ctx.sample({k: e[k] for k in ("rows", "thr", "mode", "out")}, limit=2)
+    # growth next to C11: the ST-DBSCAN clustering that writes cluster / noise markers (StDbscan.tla)
+    from drivers import stdbscan_common
+    stdbscan_common.run(ctx, ctx.tier == "quick")
